@@ -615,7 +615,7 @@ class C05(Prop):
                 "NV.C05.tie_context_fields_saved", "NV.C05.tie_every_field_saved_is_restored", "NV.C05.tie_context_globals",
                 "NV.C05.tie_frame_registers", "NV.C05.tie_frame_saved_is_restored", "NV.C05.tie_all_globals_classified",
                 "NV.C05.tie_classes_match_source", "NV.C05.tie_command_giver_stack", "NV.C05.tie_callback_handlers",
-                "NV.C05.tie_backend_shapes", "NV.C05.tie_catch_value_order", "NV.C05.tie_handler_flag", "NV.C05.tie_error_handler_slots", "NV.C05.tie_vital_destruct_order", "NV.C05.tie_error_handlers_are_leaves",
+                "NV.C05.tie_backend_shapes", "NV.C05.tie_catch_value_order", "NV.C05.tie_handler_flag", "NV.C05.tie_error_handler_slots", "NV.C05.tie_vital_destruct_order", "NV.C05.tie_error_handlers_are_leaves", "NV.C05.tie_handler_effects",
                 "NV.C05.vital_records_before_blanking", "NV.C05.vital_nested_refused", "NV.C05.popN_fixNames", "NV.C05.vitalFinish_good", "NV.C05.tie_handler_limit_state", "NV.C05.tie_hook_globals_apart", "NV.C05.raise_sets_catch_value_after_handler",
                 "NV.C05.driver_restores", "NV.C05.model_satisfies_spec_driver",
                 "NV.C05.backend_cycle_restores", "NV.C05.model_satisfies_spec_backend", "NV.C05.restoreContext_verb", "NV.C05.restoreContext_runs_fixNames", "NV.C05.exec_vk", "NV.C05.execCore_vk", "NV.C05.driver_keeps_last_verb",
@@ -803,6 +803,10 @@ class C05(Prop):
         return text
 
     # ---- translator: which global variables does an error unwinding have to put back? -----------------------------
+    # what the registered handlers are known to put back (reviewed; `tie_handler_effects`)
+    HANDLER_EFFECTS = [("sort_array_unlink", "sort_array_ftc"), ("sort_array_unlink", "sort_ctx_top"),
+                       ("unique_array_error_handler", "g_u_list"), ("unique_mapping_error_handler", "g_u_m_list"),
+                       ("fix_object_names", "master_ob->name"), ("fix_object_names", "simul_efun_ob->name")]
     CORE_OBJECTS = ["interpret", "frame", "stack", "error_context", "apply", "simulate"]
     CALLBACKS = r"\b(call_function_pointer|apply|apply_master_ob|call_efun_callback|call_function|error)\s*\("
 
@@ -1031,6 +1035,29 @@ class C05(Prop):
                             continue
                         if prim.search(hb) or re.search(r"\berror\s*\(", hb):
                             bad_handlers.append(h)
+        # (8c) what every registered handler puts back: the file-scope state it assigns (each efun that keeps C state in a
+        #      global across its callbacks registers a handler that unlinks / restores it when the stack is unwound)
+        assigns = []
+        for f, h in slots:
+            for root in ("src", "lib"):
+                for dp, dn, fn in os.walk(os.path.join(E.REPO, root)):
+                    if f in fn:
+                        try:
+                            hb = body(os.path.relpath(os.path.join(dp, f), E.REPO), h)
+                        except X.TieBroken:
+                            continue
+                        decl = set(re.findall(r"\b(?:\w+\s+)+\**\s*(\w+)\s*(?:=|;|,)", re.sub(r"[{};]\s*(\w+)\s*=", ";", hb)))
+                        local = set(re.findall(r"(?:^|[{;])\s*(?:struct\s+)?\w+\s+\**(\w+)\s*(?:=[^;]*)?(?:,\s*\**\w+\s*(?:=[^;]*)?)*;", hb))
+                        local |= set(re.findall(r",\s*\*?(\w+)\s*;", hb))
+                        for lv in re.findall(r"(?:^|[{;)])\s*([A-Za-z_][\w]*(?:->\w+|\.\w+)*)\s*=[^=]", hb):
+                            if lv.split("->")[0].split(".")[0] not in local:
+                                assigns.append((h, lv))
+        assigns = sorted(set(assigns))
+        out.append("/-- (handler of a T_ERROR_HANDLER slot, file-scope state it assigns when it runs) -/\n"
+                   "def handlerAssigns : List (String × String) := %s" % pairs(assigns))
+        for want in self.HANDLER_EFFECTS:
+            if want not in assigns:
+                E.log("C05 translator: handler %s no longer assigns %s (the state an abandoned efun leaves behind)" % want)
         out.append("/-- handlers of T_ERROR_HANDLER slots that call back into LPC or raise an error -/\n"
                    "def errorHandlersThatCallBack : List String := %s" % lst(sorted(set(bad_handlers))))
         # (9) destruct_object of a vital object: slot pushed and both names recorded BEFORE the name is blanked; the handler
